@@ -3,6 +3,8 @@ package props
 import (
 	"bytes"
 	"context"
+	"crypto/ed25519"
+	"crypto/rand"
 	"fmt"
 	"os"
 	"sort"
@@ -21,13 +23,16 @@ import (
 // C03 — the server only ever commits complete messages; IsDelivered tells the truth.
 
 type c03Case struct {
-	Msgs        []gen.MsgSpec              `json:"msgs"`
-	Steps       map[string]refsmtp.Outcome `json:"steps,omitempty"`
-	DropData    bool                       `json:"drop_data,omitempty"`
-	DropInData  int                        `json:"drop_in_data,omitempty"`
-	DataTxn     int                        `json:"data_txn,omitempty"`
-	DeleteFile  int                        `json:"delete_file,omitempty"` // 1-based message index whose on-disk files vanish before Send (0 = none)
-	DialAndSend bool                       `json:"dial_and_send"`
+	Msgs       []gen.MsgSpec              `json:"msgs"`
+	Steps      map[string]refsmtp.Outcome `json:"steps,omitempty"`
+	DropData   bool                       `json:"drop_data,omitempty"`
+	DropInData int                        `json:"drop_in_data,omitempty"`
+	DataTxn    int                        `json:"data_txn,omitempty"`
+	DeleteFile int                        `json:"delete_file,omitempty"` // 1-based message index whose on-disk files vanish before Send (0 = none)
+	// Unsignable: 1-based index of a message that is S/MIME-"signed" with a key type the signer refuses
+	// at render time (Ed25519): its rendering fails before the first byte, after DATA was accepted.
+	Unsignable  int  `json:"unsignable,omitempty"`
+	DialAndSend bool `json:"dial_and_send"`
 }
 
 // normDATA models what transmitting content through DATA does to it, byte for byte the way
@@ -113,6 +118,15 @@ func c03Run(c c03Case) []*core.Violation {
 			return []*core.Violation{core.V("HARNESS-reference-render", "message %d: %v", i+1, err)}
 		}
 		refs = append(refs, buf.Bytes())
+		if c.Unsignable == i+1 {
+			pub, priv, _ := ed25519.GenerateKey(rand.Reader)
+			_ = pub
+			chain := signingChain("ecdsa", false)
+			if err := b.Msg.SignWithKeypair(priv, chain.Leaf, nil); err != nil {
+				rec.Skip()
+				return nil
+			}
+		}
 		builts = append(builts, b)
 		msgs = append(msgs, b.Msg)
 	}
@@ -120,6 +134,9 @@ func c03Run(c c03Case) []*core.Violation {
 	for i, b := range builts {
 		*b.Armed = true
 		if specHasFault(&c.Msgs[i]) {
+			renderFails[i] = true
+		}
+		if c.Unsignable == i+1 {
 			renderFails[i] = true
 		}
 		if c.DeleteFile == i+1 && len(b.FilePaths) > 0 {
@@ -227,7 +244,7 @@ func c03Run(c c03Case) []*core.Violation {
 		for i := range c.Msgs {
 			shapes = append(shapes, fmt.Sprintf("p%d/e%d/a%d/f%v", len(c.Msgs[i].Parts), len(c.Msgs[i].Embeds), len(c.Msgs[i].Attachments), renderFails[i]))
 		}
-		rec.NonTrivial(core.Join(strings.Join(shapes, ";"), strings.Join(keys, ","), c.DialAndSend, c.DeleteFile))
+		rec.NonTrivial(core.Join(strings.Join(shapes, ";"), strings.Join(keys, ","), c.DialAndSend, c.DeleteFile, c.Unsignable))
 		rec.Sample(fmt.Sprintf("%d/%d", faults, nRenderFaults), map[string]interface{}{"msgs": shapes, "reply_faults": keys, "render_faults": nRenderFaults, "commits": committed, "dial_and_send": c.DialAndSend})
 	}
 	rec.Class(fmt.Sprintf("replyfaults:%d", faults))
@@ -297,6 +314,9 @@ func c03Gen(t *rapid.T) c03Case {
 	if rapid.IntRange(0, 7).Draw(t, "deletefile") == 0 {
 		c.DeleteFile = rapid.IntRange(1, n).Draw(t, "deletewhich")
 	}
+	if rapid.IntRange(0, 7).Draw(t, "unsignable") == 0 {
+		c.Unsignable = rapid.IntRange(1, n).Draw(t, "unsignablewhich")
+	}
 	if rapid.IntRange(0, 3).Draw(t, "dropdata") == 0 {
 		c.DropData = true
 		c.DataTxn = rapid.IntRange(1, n).Draw(t, "droptxn")
@@ -318,7 +338,7 @@ func c03Gen(t *rapid.T) c03Case {
 func TestC03(t *testing.T) {
 	rec := core.Rec("C03")
 	rec.Rule = "batches of 1..4 generated message programs (0..2 parts, 0..1 embeds, 0..2 attachments; QP/base64/8bit) sent through the real Client (Send on a dialled client, or DialAndSend) to the reference server over in-memory connections, with " +
-		"render faults (one body/alternative/embed/attachment producer of a message failing before its first byte, after a prefix or after its last byte, armed only during the send; on-disk attachment files deleted between AttachFile and Send), " +
+		"render faults (one body/alternative/embed/attachment producer of a message failing before its first byte, after a prefix or after its last byte, armed only during the send; on-disk attachment files deleted between AttachFile and Send; a message given an S/MIME key the signer refuses at render time, so that rendering fails before the first byte), " +
 		"transport faults (connection dropped after k content bytes of a chosen DATA phase) and 0..3 non-ok replies (4yz, 5yz, drop, 421+close) at MAIL/RCPT/DATA/end-of-data/RSET/NOOP/QUIT positions. " +
 		"TestC03Enum enumerates, for batches of 1, 2 and 3 messages (plain + html + attachment each): every step id x {4yz, 5yz, drop}; every producer x {before first byte, mid-content, after last byte}; for the batch of 3 every render fault of the middle message combined with every reply fault; and a connection drop at every 40th content byte. " +
 		"Oracle from the server's commit log: every payload accepted at end-of-data is byte-identical to the harness' own WriteTo rendering of that Msg taken before the send (plus the final CRLF inherent to DATA), never a prefix; each Msg is committed at most once per call; IsDelivered() <=> a 2yz end-of-data reply for that Msg; a Msg whose rendering failed has a send error and no commit. " +
@@ -400,6 +420,9 @@ func TestC03Enum(t *testing.T) {
 						}
 					}
 				}
+			}
+			for mi := 0; mi < n; mi++ {
+				run(c03Case{Msgs: msgs, Unsignable: mi + 1, DialAndSend: das})
 			}
 			// transport drops inside DATA at every 40th byte of the first message
 			for k := 0; k < 900; k += 40 {
